@@ -202,6 +202,12 @@ func checkRingOrigin(w *World, r *Report, rule string) {
 				}
 			}
 		}
+		if !okH {
+			// e.g. head = the running position after the loop: decided by the affine rule (C14.R5 PopN:offsets)
+			if decided, holds := popnTransferAffine(w); decided && holds {
+				okH = true
+			}
+		}
 		r.Check(okH, rule, "RingBuffer.PopN:advances-head", "head advances by the number of elements handed out", site, "head does not move by the popped count: elements are popped twice or skipped")
 	}
 }
